@@ -284,6 +284,33 @@ def run(ctx):
     okos = len(a1) == 1 and canon(a1[0][1].args[0]) == "self.live_points_indices" and oa.once(a1[0][0])
     nul = oa.find(lambda s: isinstance(s, ast.Assign) and canon(s) == "self.live_points = None")
     ctx.ob("R-ORDER", "C15.3", osf, "sample store: every remaining live index is moved to the dead set exactly once, then the live set is emptied", okos and len(nul) == 1 and oa.dominates(a1[0][0], nul[0]), "")
+    # ---- C15.5 evidence-error criteria survive a constant factor in the likelihood ---------------------------------
+    # log Z, the log-weights and anything linear in them move with a likelihood offset (shift degree 1); the state
+    # leaves log space to form the standard error sum((Z_i - Z)^2), and only the extended exponent range of
+    # np.longdouble keeps that finite (and the ratio u / Z, which is offset-free, exact) for |log Z| beyond ~700.
+    # Every exponential of a degree-1 quantity in _INSIntegralState therefore carries dtype=np.longdouble.
+    from ..canon import linform as _lf5
+    ist_ = prog.cls("nessai.evidence:_INSIntegralState")
+    deg1_ = ("self.logZ", "self._logZ", "self._weights", "self.log_evidence", "self._weights_lp", "self._weights_ns", "self.log_evidence_live_points", "self.log_evidence_nested_samples")
+    n_exp_ = 0
+    for f_ in ist_.methods.values():
+        for c_ in walk_no_nested(f_.node):
+            if not (isinstance(c_, ast.Call) and (call_name(c_) or "").split(".")[-1] in ("exp", "exp2", "expm1") and c_.args):
+                continue
+            try:
+                form_ = _lf5(c_.args[0]) or {}
+            except Exception:
+                form_ = None
+            if form_ is None:
+                continue
+            d_ = sum(v_ for k_, v_ in form_.items() if any(k_ == a_ or k_.startswith(a_ + "[") for a_ in deg1_))
+            if d_ == 0:
+                continue
+            n_exp_ += 1
+            wide_ = any(k_.arg == "dtype" and src(k_.value).split(".")[-1] in ("longdouble", "float128") for k_ in c_.keywords)
+            ctx.ob("R-DEG", "C15.5", f_, "an exponential of a quantity that moves with a likelihood offset is taken in extended precision (dtype=np.longdouble)", wide_, f"`{src(c_)[:70]}` (shift degree {d_})" + ("" if wide_ else ": overflows to inf above log Z ~ 709 and underflows to 0 below ~ -745 in float64"), node=c_)
+    ctx.require(n_exp_ >= 2, f"only {n_exp_} absolute-scale exponentials found in _INSIntegralState (compute_uncertainty expected)")
+    ctx.floor("C15.5", 2)
     ctx.floor("C15.1", 10)
     ctx.floor("C15.2", 5)
     ctx.floor("C15.3", 10)
